@@ -523,7 +523,7 @@ func points(c *mon.Case) {
 		cell := s2.CellFromCellID(gen.RandCellID(r, r.Intn(31)))
 		k := r.Intn(4)
 		t := r.Float64()
-		v := cell.Vertex(k).Mul(1 - t).Add(cell.Vertex((k+1)%4).Mul(t))
+		v := cell.Vertex(k).Mul(1 - t).Add(cell.Vertex((k + 1) % 4).Mul(t))
 		p = gen.NudgeUlps(r, s2.Point{Vector: v.Normalize()}, r.Intn(4))
 		near = true
 	case 6: // cell centre
